@@ -2,21 +2,526 @@
    21-frame test recordings, independence of the three recorders. *)
 From Coq Require Import List ZArith Bool Arith Lia.
 From TR Require Import model.Ring model.RingSpec model.Processor model.ProcAbs model.ProcSpec proofs.ProcRefine.
+From Coq Require Import ZifyBool.
 Import ListNotations.
 Open Scope Z_scope.
+
+(* ------------------------------------------------------------------ *)
+(* generic helpers *)
+
+Lemma pinit_eq : forall c fm fc ft, pinit c fm fc ft = mkP (minit c fm) (cinit fc) (tinit ft).
+Proof. reflexivity. Qed.
+
+Lemma pop_nf : forall f, forallb negb f = true ->
+    fst (pop f) = false /\ forallb negb (snd (pop f)) = true.
+Proof.
+  intros [|b f] H; cbn in *; [auto|].
+  apply andb_true_iff in H. destruct H as [H1 H2]. destruct b; cbn in *; auto; discriminate.
+Qed.
+
+Lemma pop_nf_eq : forall f b f', forallb negb f = true -> pop f = (b, f') ->
+    b = false /\ forallb negb f' = true.
+Proof.
+  intros f b f' H E. destruct (pop_nf f H) as [H1 H2]. rewrite E in *. cbn in *. auto.
+Qed.
+
+Lemma filter_none : forall (A : Type) (f g : A -> bool) l,
+    forallb g l = true -> (forall x, g x = true -> f x = false) -> filter f l = [].
+Proof.
+  induction l as [|x l IH]; intros H K; cbn in *; [reflexivity|].
+  apply andb_true_iff in H. destruct H as [H1 H2]. rewrite (K x H1). auto.
+Qed.
+
+Lemma filter_all : forall (A : Type) (f g : A -> bool) l,
+    forallb g l = true -> (forall x, g x = true -> f x = true) -> filter f l = l.
+Proof.
+  induction l as [|x l IH]; intros H K; cbn in *; [reflexivity|].
+  apply andb_true_iff in H. destruct H as [H1 H2]. rewrite (K x H1). f_equal. auto.
+Qed.
+
+Lemma existsb_none : forall (A : Type) (f g : A -> bool) l,
+    forallb g l = true -> (forall x, g x = true -> f x = false) -> existsb f l = false.
+Proof.
+  induction l as [|x l IH]; intros H K; cbn in *; [reflexivity|].
+  apply andb_true_iff in H. destruct H as [H1 H2]. rewrite (K x H1). auto.
+Qed.
+
+(* ------------------------------------------------------------------ *)
+(* write_pre only issues writes of ids of its argument on the motion sink *)
+
+Lemma write_pre_cons2 : forall id id2 rest f,
+    write_pre (id :: id2 :: rest) f =
+    let (failed, f') := pop f in
+    if failed then (false, f', [Call SMotion (Write id) true])
+    else let '(ok, f'', o) := write_pre (id2 :: rest) f' in
+         (ok, f'', Call SMotion (Write id) false :: o).
+Proof. reflexivity. Qed.
+
+Definition is_mwrite (P : Z -> Prop) (x : out) : Prop :=
+  match x with Call SMotion (Write w) _ => P w | _ => False end.
+
+Lemma write_pre_outs : forall ids f,
+    Forall (is_mwrite (fun w => In w ids)) (snd (write_pre ids f)).
+Proof.
+  induction ids as [|id rest IH]; intros f.
+  - cbn. constructor.
+  - destruct rest as [|id2 rest].
+    + cbn. constructor.
+    + rewrite write_pre_cons2. destruct (pop f) as [failed f']. destruct failed.
+      * cbn [snd]. constructor; [unfold is_mwrite; left; reflexivity|constructor].
+      * specialize (IH f'). destruct (write_pre (id2 :: rest) f') as [[ok f''] o].
+        cbn [snd] in *. constructor; [unfold is_mwrite; left; reflexivity|].
+        eapply Forall_impl; [|exact IH].
+        intros x; destruct x as [[] [] ?| | | | |]; unfold is_mwrite; try tauto.
+        intros K. right. exact K.
+Qed.
+
+Lemma write_pre_nf : forall ids f, forallb negb f = true ->
+    forallb negb (snd (fst (write_pre ids f))) = true.
+Proof.
+  induction ids as [|id rest IH]; intros f H.
+  - cbn. exact H.
+  - destruct rest as [|id2 rest].
+    + cbn. exact H.
+    + rewrite write_pre_cons2. destruct (pop f) as [failed f'] eqn:E.
+      destruct (pop_nf_eq _ _ _ H E) as [-> H'].
+      specialize (IH f' H'). destruct (write_pre (id2 :: rest) f') as [[ok f''] o].
+      cbn [fst snd] in *. exact IH.
+Qed.
+
+Lemma mwrite_motion : forall P o, Forall (is_mwrite P) o -> forallb is_motion_out o = true.
+Proof.
+  induction 1 as [|x o Hx Ho IH]; [reflexivity|].
+  cbn [forallb]. rewrite IH. destruct x as [[] [] ?| | | | |]; cbn in *; tauto.
+Qed.
+
+Lemma mwrite_no_start : forall P s o, Forall (is_mwrite P) o -> has_start_any s o = false.
+Proof.
+  induction 1 as [|x o Hx Ho IH]; [reflexivity|].
+  unfold has_start_any in *. cbn [existsb]. rewrite IH.
+  destruct x as [[] [] ?| | | | |]; cbn in *; tauto.
+Qed.
+
+Lemma mwrite_no_start_ok : forall P s o, Forall (is_mwrite P) o -> has_start_ok s o = false.
+Proof.
+  induction 1 as [|x o Hx Ho IH]; [reflexivity|].
+  unfold has_start_ok in *. cbn [existsb]. rewrite IH.
+  destruct x as [[] [] ?| | | | |]; cbn in *; tauto.
+Qed.
+
+Lemma mwrite_no_stop : forall P s o, Forall (is_mwrite P) o -> has_stop s o = false.
+Proof.
+  induction 1 as [|x o Hx Ho IH]; [reflexivity|].
+  unfold has_stop in *. cbn [existsb]. rewrite IH.
+  destruct x as [[] [] ?| | | | |]; cbn in *; tauto.
+Qed.
+
+Lemma mwrite_s12 : forall P o x y, Forall (is_mwrite P) o ->
+    fold_left s12_out o (mk12 true x y true) = mk12 true x y true.
+Proof.
+  induction 1 as [|z o Hz Ho IH]; [reflexivity|].
+  cbn [fold_left]. destruct z as [[] [] ?| | | | |]; cbn in Hz; try tauto.
+Qed.
+
+(* ------------------------------------------------------------------ *)
+(* the concrete motion machine only produces motion-kind outputs *)
+
+Lemma stop_recording_motion : forall s, forallb is_motion_out (snd (stop_recording s)) = true.
+Proof.
+  intros s. unfold stop_recording. destruct (negb (m_rec s)); [reflexivity|].
+  destruct (pop (m_faults s)). reflexivity.
+Qed.
+
+Ltac brk1 :=
+  match goal with
+  | |- context [match ?x with _ => _ end] =>
+      lazymatch x with
+      | context [match _ with _ => _ end] => fail
+      | negb ?b => destruct b eqn:?; cbn [negb]
+      | _ => destruct x eqn:?
+      end
+  end.
+
+Lemma mprocess_motion : forall c s id motion win,
+    forallb is_motion_out (snd (mprocess c s id motion win)) = true.
+Proof.
+  intros c s id motion win. unfold mprocess.
+  repeat (brk1; cbn [m_rec m_faults m_ring m_fw m_wu m_trig fst snd]);
+    rewrite ?forallb_app; cbn [forallb is_motion_out andb];
+    repeat match goal with
+           | H : stop_recording ?s = (_, ?o) |- _ =>
+               let K := fresh in pose proof (stop_recording_motion s) as K; rewrite H in K;
+               cbn [snd] in K; rewrite K; clear H
+           | H : write_pre ?a ?b = (_, ?o) |- _ =>
+               let K := fresh in pose proof (mwrite_motion _ _ (write_pre_outs a b)) as K; rewrite H in K;
+               cbn [snd] in K; rewrite K; clear H
+           end; reflexivity.
+Qed.
+
+Lemma mstep_outs_motion : forall c m e, forallb is_motion_out (snd (mstep c m e)) = true.
+Proof.
+  intros c m e. destruct e; cbn [mstep].
+  - apply mprocess_motion.
+  - apply stop_recording_motion.
+  - apply stop_recording_motion.
+  - reflexivity.
+Qed.
+
+(* ------------------------------------------------------------------ *)
+(* projections of a concatenated step output *)
+
+Lemma motion_outs_app3 : forall om oc ot,
+    forallb is_const_out oc = true -> forallb is_test_out ot = true ->
+    motion_outs (om ++ oc ++ ot) = motion_outs om.
+Proof.
+  intros om oc ot Hc Ht. unfold motion_outs. rewrite !filter_app.
+  rewrite (filter_none _ _ is_const_out oc Hc), (filter_none _ _ is_test_out ot Ht).
+  - rewrite !app_nil_r. reflexivity.
+  - intros x; destruct x as [[] [] ?| | | | |]; cbn; congruence.
+  - intros x; destruct x as [[] [] ?| | | | |]; cbn; congruence.
+Qed.
+
+Lemma const_outs_app3 : forall om oc ot,
+    forallb is_motion_out om = true -> forallb is_const_out oc = true -> forallb is_test_out ot = true ->
+    const_outs (om ++ oc ++ ot) = oc.
+Proof.
+  intros om oc ot Hm Hc Ht. unfold const_outs. rewrite !filter_app.
+  rewrite (filter_none _ _ is_motion_out om Hm), (filter_none _ _ is_test_out ot Ht),
+    (filter_all _ _ is_const_out oc Hc).
+  - rewrite app_nil_r. reflexivity.
+  - intros x; destruct x as [[] [] ?| | | | |]; cbn; congruence.
+  - intros x; destruct x as [[] [] ?| | | | |]; cbn; congruence.
+  - intros x; destruct x as [[] [] ?| | | | |]; cbn; congruence.
+Qed.
+
+Lemma test_outs_app3 : forall om oc ot,
+    forallb is_motion_out om = true -> forallb is_const_out oc = true -> forallb is_test_out ot = true ->
+    test_outs (om ++ oc ++ ot) = ot.
+Proof.
+  intros om oc ot Hm Hc Ht. unfold test_outs. rewrite !filter_app.
+  rewrite (filter_none _ _ is_motion_out om Hm), (filter_none _ _ is_const_out oc Hc),
+    (filter_all _ _ is_test_out ot Ht).
+  - reflexivity.
+  - intros x; destruct x as [[] [] ?| | | | |]; cbn; congruence.
+  - intros x; destruct x as [[] [] ?| | | | |]; cbn; congruence.
+  - intros x; destruct x as [[] [] ?| | | | |]; cbn; congruence.
+Qed.
+
+Lemma mstep_k : forall c m e m' om, mstep c m e = (m', om) -> forallb is_motion_out om = true.
+Proof. intros c m e m' om E. pose proof (mstep_outs_motion c m e) as H. rewrite E in H. exact H. Qed.
+Lemma astep_k : forall c a e a' om, astep c a e = (a', om) -> forallb is_motion_out om = true.
+Proof. intros c a e a' om E. pose proof (astep_outs_motion c a e) as H. rewrite E in H. exact H. Qed.
+Lemma cstep_k : forall c s e s' oc, cstep c s e = (s', oc) -> forallb is_const_out oc = true.
+Proof. intros c s e s' oc E. pose proof (cstep_outs_const c s e) as H. rewrite E in H. exact H. Qed.
+Lemma tstep_k : forall s e s' ot, tstep s e = (s', ot) -> forallb is_test_out ot = true.
+Proof. intros s e s' ot E. pose proof (tstep_outs_test s e) as H. rewrite E in H. exact H. Qed.
+
+Lemma outs_eqb_refl : forall o, outs_eqb o o = true.
+Proof.
+  induction o as [|x o IH]; [reflexivity|]. cbn [outs_eqb]. rewrite IH.
+  destruct x as [[] [] []| | | | |]; cbn; rewrite ?Z.eqb_refl, ?eqb_reflx; reflexivity.
+Qed.
+
+(* ------------------------------------------------------------------ *)
+(* properties of one step of the abstract motion machine *)
+
+Lemma has_start_ok_app : forall s a b, has_start_ok s (a ++ b) = has_start_ok s a || has_start_ok s b.
+Proof. intros. unfold has_start_ok. apply existsb_app. Qed.
+Lemma has_stop_app : forall s a b, has_stop s (a ++ b) = has_stop s a || has_stop s b.
+Proof. intros. unfold has_stop. apply existsb_app. Qed.
+Lemma has_start_any_app : forall s a b, has_start_any s (a ++ b) = has_start_any s a || has_start_any s b.
+Proof. intros. unfold has_start_any. apply existsb_app. Qed.
+
+Definition wr_ok (id : Z) (o : list out) : bool :=
+  forallb (fun x => match x with Call _ (Write w) _ => (0 <=? w) && (w <=? id) | _ => true end) o.
+
+Lemma wr_ok_app : forall id a b, wr_ok id (a ++ b) = wr_ok id a && wr_ok id b.
+Proof. intros. unfold wr_ok. apply forallb_app. Qed.
+
+Lemma mwrite_wr_ok : forall P id o, Forall (is_mwrite P) o -> (forall w, P w -> 0 <= w <= id) ->
+    wr_ok id o = true.
+Proof.
+  induction 1 as [|x o Hx Ho IH]; intros K; [reflexivity|].
+  unfold wr_ok in *. cbn [forallb]. rewrite (IH K).
+  destruct x as [[] [] ?| | | | |]; cbn in Hx; try tauto. specialize (K _ Hx). lia.
+Qed.
+
+Lemma wr_ok_writes : forall id s o, wr_ok id o = true ->
+    forallb (fun w => (0 <=? w) && (w <=? id)) (writes_of s o) = true.
+Proof.
+  induction o as [|x o IH]; intros H; [reflexivity|].
+  unfold wr_ok in *. cbn [forallb] in H. apply andb_true_iff in H. destruct H as [H1 H2].
+  unfold writes_of in *. cbn [flat_map]. rewrite forallb_app, (IH H2), andb_true_r.
+  destruct x as [s' [] ?| | | | |]; try reflexivity.
+  destruct s, s'; cbn [forallb]; rewrite ?H1; reflexivity.
+Qed.
+
+Lemma zseq_in : forall cnt lo w, In w (zseq lo cnt) -> lo <= w < lo + Z.of_nat cnt.
+Proof.
+  induction cnt as [|k IH]; intros lo w H; cbn [zseq In] in H; [tauto|].
+  destruct H as [H|H]; [lia|]. apply IH in H. lia.
+Qed.
+
+Lemma ahistory_in : forall c mark id w, In w (ahistory c mark id) -> mark <= w <= id.
+Proof. intros c mark id w H. unfold ahistory in H. apply zseq_in in H. lia. Qed.
+
+Ltac wp_facts :=
+  repeat match goal with
+         | H : write_pre ?a ?b = (_, ?o) |- _ =>
+             let W := fresh "W" in
+             pose proof (write_pre_outs a b) as W; rewrite H in W; cbn [snd] in W;
+             let N := fresh "N" in
+             pose proof (write_pre_nf a b) as N; rewrite H in N; cbn [fst snd] in N;
+             clear H
+         end.
+
+Ltac abrk :=
+  unfold aprocess, astop;
+  cbn [a_n a_mark a_rec a_fw a_wu a_trig a_faults];
+  repeat (brk1; cbn [a_n a_mark a_rec a_fw a_wu a_trig a_faults fst snd negb andb]).
+
+Lemma astop_s12 : forall a x y,
+    fold_left s12_out (snd (astop a)) (mk12 (a_rec a) x y true) = mk12 (a_rec (fst (astop a))) x y true.
+Proof.
+  intros [n mark rec fw wu trig fl] x y. abrk; try discriminate; subst; reflexivity.
+Qed.
+
+Lemma aprocess_s12 : forall c a id mo w x y,
+    fold_left s12_out (snd (aprocess c a id mo w)) (mk12 (a_rec a) x y true) =
+    mk12 (a_rec (fst (aprocess c a id mo w))) x y true.
+Proof.
+  intros c [n mark rec fw wu trig fl] id mo w x y. abrk; try discriminate; wp_facts;
+    rewrite ?fold_left_app; cbn [fold_left s12_out s12_set s12_get s12_m s12_c s12_t s12_ok negb andb app];
+    rewrite ?(mwrite_s12 _ _ _ _ W); reflexivity.
+Qed.
+
+Lemma astep_s12 : forall c a e x y,
+    fold_left s12_out (snd (astep c a e)) (mk12 (a_rec a) x y true) =
+    mk12 (a_rec (fst (astep c a e))) x y true.
+Proof.
+  intros c a e x y. destruct e; cbn [astep].
+  - apply aprocess_s12.
+  - apply astop_s12.
+  - apply astop_s12.
+  - reflexivity.
+Qed.
+
+Lemma cstep_s12 : forall c cs e x y, 0 <= c_frames cs ->
+    fold_left s12_out (snd (cstep c cs e)) (mk12 x (0 <? c_frames cs) y true) =
+    mk12 x (0 <? c_frames (fst (cstep c cs e))) y true /\ 0 <= c_frames (fst (cstep c cs e)).
+Proof.
+  intros c [fr fl] e x y H. cbn [c_frames] in *.
+  destruct (0 <? fr) eqn:E0;
+    destruct e; cbn [cstep]; unfold cprocess; cbn [c_frames c_faults];
+    repeat (brk1; cbn [c_frames c_faults fst snd negb andb app]); try (exfalso; lia);
+    cbn [fold_left s12_out s12_set s12_get s12_m s12_c s12_t s12_ok negb andb app c_frames c_faults fst snd];
+    (split; [f_equal; lia|lia]).
+Qed.
+
+Lemma tstep_s12 : forall ts e x y,
+    fold_left s12_out (snd (tstep ts e)) (mk12 x y (t_rec ts) true) =
+    mk12 x y (t_rec (fst (tstep ts e))) true.
+Proof.
+  intros [tsr trc tfr tfl] e x y. cbn [t_rec].
+  destruct e; cbn [tstep]; unfold tprocess; cbn [t_start t_rec t_frames t_faults];
+    repeat (brk1; cbn [t_start t_rec t_frames t_faults fst snd negb andb app]); try discriminate;
+    cbn [t_start t_rec t_frames t_faults fst snd]; reflexivity.
+Qed.
+
+Definition R12 (st : s12) (a : astate) (cs : cstate) (ts : tstate) : Prop :=
+  s12_ok st = true /\ s12_m st = a_rec a /\ 0 <= c_frames cs /\
+  s12_c st = (0 <? c_frames cs) /\ s12_t st = t_rec ts.
+
+Lemma S12_gen : forall c evs a cs ts st,
+    R12 st a cs ts ->
+    s12_ok (fold_left s12_out
+              (flat_map snd (combine evs (zip3 (arun c a evs) (crun c cs evs) (trun ts evs)))) st) = true.
+Proof.
+  induction evs as [|e evs IH]; intros a cs ts st HR.
+  - cbn. apply HR.
+  - destruct st as [sm sc stt ok]. destruct HR as (Hok & Hm & Hc & Hsc & Ht).
+    cbn [s12_ok s12_m s12_c s12_t] in *. subst.
+    cbn [arun crun trun].
+    pose proof (astep_s12 c a e (0 <? c_frames cs) (t_rec ts)) as Ka.
+    destruct (astep c a e) as [a' om].
+    destruct (cstep_s12 c cs e (a_rec a') (t_rec ts) Hc) as [Kc Kc'].
+    destruct (cstep c cs e) as [cs' oc].
+    pose proof (tstep_s12 ts e (a_rec a') (0 <? c_frames cs')) as Kt.
+    destruct (tstep ts e) as [ts' ot].
+    cbn [fst snd zip3 combine flat_map] in *.
+    rewrite !fold_left_app, Ka, Kc, Kt. apply IH.
+    unfold R12. cbn. auto.
+Qed.
 
 (* every sink sees a well-formed call sequence, for every event list and every placement of
    start / write / stop / check failures on the three sinks; no panic *)
 Theorem S12_holds : forall c fm fc ft evs,
     1 <= p_size c -> wf_ids 0 evs ->
     S12 (psteps c fm fc ft evs) = true.
-Admitted.
+Proof.
+  intros c fm fc ft evs Hs Hwf. unfold S12, psteps.
+  rewrite pinit_eq, prun_zip3, (mrun_arun c fm evs Hs Hwf).
+  apply S12_gen. unfold R12, ainit, cinit, tinit. cbn. repeat split; reflexivity || lia.
+Qed.
+
+(* ------------------------------------------------------------------ *)
+(* C12 recovery *)
+
+Fixpoint afinal (c : pcfg) (a : astate) (evs : list ev) : astate :=
+  match evs with
+  | [] => a
+  | e :: t => afinal c (fst (astep c a e)) t
+  end.
+
+Lemma arun_app : forall c l1 l2 a,
+    arun c a (l1 ++ l2) = arun c a l1 ++ arun c (afinal c a l1) l2.
+Proof.
+  induction l1 as [|e l1 IH]; intros l2 a; cbn [app arun afinal]; [reflexivity|].
+  destruct (astep c a e) as [a' o]. cbn [fst]. rewrite IH. reflexivity.
+Qed.
+
+Definition AInv (c : pcfg) (a : astate) : Prop :=
+  0 <= a_fw a /\ a_wu a <= p_max c /\ 0 <= a_trig a.
+
+Lemma astep_AInv : forall c a e, 0 <= p_min c <= p_max c -> AInv c a -> AInv c (fst (astep c a e)).
+Proof.
+  intros c [n mark rec fw wu trig fl] e Hp (H1 & H2 & H3). cbn [a_fw a_wu a_trig] in *.
+  destruct e; cbn [astep]; unfold AInv.
+  - abrk; cbn [a_n a_mark a_rec a_fw a_wu a_trig a_faults fst snd]; clear - Hp H1 H2 H3; lia.
+  - abrk; cbn [a_n a_mark a_rec a_fw a_wu a_trig a_faults fst snd]; clear - Hp H1 H2 H3; lia.
+  - abrk; cbn [a_n a_mark a_rec a_fw a_wu a_trig a_faults fst snd]; clear - Hp H1 H2 H3; lia.
+  - cbn. lia.
+Qed.
+
+Lemma afinal_AInv : forall c evs a, 0 <= p_min c <= p_max c -> AInv c a -> AInv c (afinal c a evs).
+Proof.
+  induction evs as [|e evs IH]; intros a Hp H; cbn [afinal]; [exact H|].
+  apply IH; [exact Hp|]. apply astep_AInv; assumption.
+Qed.
+
+Lemma reach_sim : forall c evs m a,
+    Sim c m a -> wf_ids (a_n a) evs ->
+    Sim c (mfinal c m evs) (afinal c a evs) /\ a_n (afinal c a evs) = a_n a + nframes evs.
+Proof.
+  induction evs as [|e evs IH]; intros m a HS Hwf; cbn [mfinal afinal nframes].
+  - split; [exact HS|lia].
+  - assert (He : match e with EFrame id _ _ => id = a_n a | _ => True end).
+    { destruct e; cbn in Hwf; tauto. }
+    destruct (Sim_step c m a e HS He) as [_ HS'].
+    pose proof (an_step c a e) as Kn.
+    assert (Hwf' : wf_ids (a_n (fst (astep c a e))) evs).
+    { rewrite Kn. destruct e; cbn in Hwf; try tauto. destruct Hwf as [-> Hwf]. exact Hwf. }
+    destruct (IH _ _ HS' Hwf') as [K1 K2]. split; [exact K1|].
+    rewrite K2, Kn. destruct e; cbn in Hwf; lia.
+Qed.
+
+Definition nof (a : astate) : Prop := forallb negb (a_faults a) = true.
+Definition qpre (c : pcfg) (j : Z) (a : astate) : Prop :=
+  a_rec a = true -> a_wu a <= p_max c /\ j <= a_fw a.
+Definition qpost (c : pcfg) (j : Z) (a : astate) : Prop :=
+  nof a /\ (a_rec a = true -> a_wu a <= p_max c /\ j <= a_fw a /\ a_fw a < a_wu a).
+
+Ltac pop_facts :=
+  repeat match goal with
+         | Hf : forallb negb ?f = true, E : pop ?f = (?b, ?l) |- _ =>
+             let H1 := fresh "Hb" in let H2 := fresh "Hf" in
+             destruct (pop_nf_eq _ _ _ Hf E) as [H1 H2]; clear E; try discriminate H1; try subst b
+         end.
+
+Lemma quiet_step : forall c a id j,
+    nof a -> qpre c j a -> qpost c (j + 1) (fst (aprocess c a id false true)).
+Proof.
+  intros c [n mark rec fw wu trig fl] id j Hn Hq. unfold nof, qpre, qpost in *.
+  cbn [a_n a_mark a_rec a_fw a_wu a_trig a_faults] in *.
+  abrk; pop_facts; cbn [a_n a_mark a_rec a_fw a_wu a_trig a_faults fst snd];
+    (split; [assumption|intros K; try discriminate K; specialize (Hq eq_refl); lia]).
+Qed.
+
+Lemma burst_step : forall c a id,
+    a_rec a = false -> nof a ->
+    has_start_ok SMotion (snd (aprocess c a id true true)) = true \/
+    (a_trig a + 1 < p_trig c /\ a_rec (fst (aprocess c a id true true)) = false /\
+     nof (fst (aprocess c a id true true)) /\
+     a_trig (fst (aprocess c a id true true)) = a_trig a + 1).
+Proof.
+  intros c [n mark rec fw wu trig fl] id Hr Hn. unfold nof in *.
+  cbn [a_n a_mark a_rec a_fw a_wu a_trig a_faults] in *. subst rec.
+  abrk; pop_facts; cbn [a_n a_mark a_rec a_fw a_wu a_trig a_faults fst snd];
+    try discriminate;
+    first [ right; repeat split; solve [assumption | reflexivity | lia]
+          | left; rewrite ?has_start_ok_app; reflexivity ].
+Qed.
 
 (* recovery: from every reachable state whose remaining motion-sink fault script is
    fault-free, p_max+1 motionless frames followed by max 1 p_trig motion frames (window
    open) contain a successful start *)
 Definition quiet (n0 : Z) (k : nat) : list ev := map (fun i => EFrame (n0 + Z.of_nat i) false true) (seq 0 k).
 Definition burst (n0 : Z) (k : nat) : list ev := map (fun i => EFrame (n0 + Z.of_nat i) true true) (seq 0 k).
+
+
+Lemma quiet_S : forall n k, quiet n (S k) = EFrame n false true :: quiet (n + 1) k.
+Proof.
+  intros n k. unfold quiet. cbn [seq map]. f_equal; [f_equal; lia|].
+  rewrite <- seq_shift, map_map. apply map_ext. intros i. f_equal. lia.
+Qed.
+
+Lemma burst_S : forall n k, burst n (S k) = EFrame n true true :: burst (n + 1) k.
+Proof.
+  intros n k. unfold burst. cbn [seq map]. f_equal; [f_equal; lia|].
+  rewrite <- seq_shift, map_map. apply map_ext. intros i. f_equal. lia.
+Qed.
+
+Lemma quiet_run : forall c k n a j,
+    nof a -> qpre c j a ->
+    qpost c (j + Z.of_nat (S k)) (afinal c a (quiet n (S k))).
+Proof.
+  induction k as [|k IH]; intros n a j Hn Hq; rewrite quiet_S; cbn [afinal astep];
+    pose proof (quiet_step c a n j Hn Hq) as K.
+  - unfold quiet. cbn [seq map afinal]. replace (j + Z.of_nat 1) with (j + 1) by lia. exact K.
+  - replace (j + Z.of_nat (S (S k))) with (j + 1 + Z.of_nat (S k)) by lia.
+    destruct K as [K1 K2]. apply IH; [exact K1|].
+    intros R. specialize (K2 R). lia.
+Qed.
+
+Lemma burst_run : forall c k n a,
+    a_rec a = false -> nof a -> p_trig c <= a_trig a + Z.of_nat k -> (1 <= k)%nat ->
+    existsb (has_start_ok SMotion) (arun c a (burst n k)) = true.
+Proof.
+  induction k as [|k IH]; intros n a Hr Hn Ht Hk; [lia|].
+  rewrite burst_S. cbn [arun astep].
+  destruct (burst_step c a n Hr Hn) as [Hs | (H1 & H2 & H3 & H4)];
+    destruct (aprocess c a n true true) as [a' o]; cbn [fst snd existsb] in *.
+  - rewrite Hs. reflexivity.
+  - rewrite IH; [apply orb_true_r|assumption|assumption|lia|lia].
+Qed.
+
+Lemma wf_ids_app : forall l1 l2 n,
+    wf_ids n l1 -> wf_ids (n + nframes l1) l2 -> wf_ids n (l1 ++ l2).
+Proof.
+  induction l1 as [|e l1 IH]; intros l2 n H1 H2; cbn [app nframes] in *.
+  - rewrite Z.add_0_r in H2. exact H2.
+  - destruct e; cbn [wf_ids nframes] in *.
+    + destruct H1 as [-> H1]. split; [reflexivity|]. apply IH; [exact H1|].
+      replace (n + 1 + nframes l1) with (n + (1 + nframes l1)) by lia. exact H2.
+    + apply IH; assumption.
+    + apply IH; assumption.
+    + apply IH; assumption.
+Qed.
+
+Lemma wf_quiet : forall k n, wf_ids n (quiet n k).
+Proof.
+  induction k as [|k IH]; intros n; [exact I|]. rewrite quiet_S. cbn [wf_ids]. split; [reflexivity|apply IH].
+Qed.
+
+Lemma wf_burst : forall k n, wf_ids n (burst n k).
+Proof.
+  induction k as [|k IH]; intros n; [exact I|]. rewrite burst_S. cbn [wf_ids]. split; [reflexivity|apply IH].
+Qed.
+
+Lemma nframes_quiet : forall k n, nframes (quiet n k) = Z.of_nat k.
+Proof.
+  induction k as [|k IH]; intros n; [reflexivity|]. rewrite quiet_S. cbn [nframes]. rewrite IH. lia.
+Qed.
 
 Theorem S12_recovers_holds : forall c fm evs1,
     1 <= p_size c -> 0 <= p_min c <= p_max c -> wf_ids 0 evs1 ->
@@ -26,12 +531,155 @@ Theorem S12_recovers_holds : forall c fm evs1,
     let tail := quiet n0 (Z.to_nat (p_max c + 1)) ++
                 burst (n0 + p_max c + 1) (Z.to_nat (Z.max 1 (p_trig c))) in
     existsb (has_start_ok SMotion) (mrun c s tail) = true.
-Admitted.
+Proof.
+  intros c fm evs1 Hs Hp Hwf s n0 Hf tail.
+  destruct (reach_sim c evs1 (minit c fm) (ainit fm) (Sim_init c fm Hs) Hwf) as [HS Hn].
+  cbn [ainit a_n] in Hn. fold s in HS. fold n0 in Hn.
+  set (a := afinal c (ainit fm) evs1) in *.
+  assert (HA : AInv c a).
+  { apply afinal_AInv; [exact Hp|]. unfold AInv, ainit. cbn. lia. }
+  assert (Hnf : nof a).
+  { destruct HS as (_ & _ & _ & _ & Hfl & _). unfold nof. rewrite <- Hfl. exact Hf. }
+  assert (Hwt : wf_ids (a_n a) tail).
+  { rewrite Hn. subst tail. apply wf_ids_app; [apply wf_quiet|]. rewrite nframes_quiet.
+    replace (0 + n0 + Z.of_nat (Z.to_nat (p_max c + 1))) with (n0 + p_max c + 1) by lia.
+    apply wf_burst. }
+  rewrite (mrun_arun_gen c tail s a HS Hwt). subst tail. rewrite arun_app, existsb_app.
+  replace (Z.to_nat (p_max c + 1)) with (S (Z.to_nat (p_max c))) by lia.
+  assert (Hq : qpre c 0 a).
+  { intros _. destruct HA as (H1 & H2 & H3). lia. }
+  destruct (quiet_run c (Z.to_nat (p_max c)) (0 + n0) a 0 Hnf Hq) as [K1 K2].
+  assert (HA' : AInv c (afinal c a (quiet (0 + n0) (S (Z.to_nat (p_max c)))))).
+  { apply afinal_AInv; assumption. }
+  rewrite Z.add_0_l in *.
+  rewrite burst_run; [apply orb_true_r| |exact K1| |lia].
+  - destruct (a_rec (afinal c a (quiet n0 (S (Z.to_nat (p_max c)))))); [|reflexivity].
+    specialize (K2 eq_refl). lia.
+  - destruct HA' as (_ & _ & H3). lia.
+Qed.
+
+(* ------------------------------------------------------------------ *)
+(* C13 *)
+
+Definition s13_post (a : astate) (id : Z) (r : astate * list out) : Prop :=
+  a_rec (fst r) = (a_rec a || has_start_ok SMotion (snd r)) && negb (has_stop SMotion (snd r)) /\
+  wr_ok id (snd r) = true /\
+  0 <= a_mark (fst r) <= a_n (fst r).
+
+Lemma aprocess_s13' : forall c a id mo w, 0 <= a_mark a <= id ->
+    s13_post a id (aprocess c a id mo w).
+Proof.
+  intros c [n mark rec fw wu trig fl] id mo w H. cbn [a_mark] in H.
+  assert (Hid : (0 <=? id) && (id <=? id) = true) by lia.
+  abrk; try discriminate; wp_facts; unfold s13_post;
+    cbn [a_n a_mark a_rec a_fw a_wu a_trig a_faults fst snd];
+    rewrite ?has_start_ok_app, ?has_stop_app, ?wr_ok_app;
+    rewrite ?(mwrite_no_start_ok _ SMotion _ W), ?(mwrite_no_stop _ SMotion _ W),
+      ?(mwrite_wr_ok _ id _ W) by (intros ? K; apply ahistory_in in K; clear - H K; lia);
+    (split; [reflexivity|split; [unfold wr_ok; cbn [forallb andb]; rewrite ?Hid; reflexivity|clear - H; lia]]).
+Qed.
+
+Lemma aprocess_s13 : forall c a id mo w, 0 <= a_mark a <= id ->
+    a_rec (fst (aprocess c a id mo w)) =
+      (a_rec a || has_start_ok SMotion (snd (aprocess c a id mo w)))
+      && negb (has_stop SMotion (snd (aprocess c a id mo w))) /\
+    wr_ok id (snd (aprocess c a id mo w)) = true /\
+    0 <= a_mark (fst (aprocess c a id mo w)) <= a_n (fst (aprocess c a id mo w)).
+Proof. intros c a id mo w H. exact (aprocess_s13' c a id mo w H). Qed.
+
+Lemma has_start_ok_app3 : forall om oc ot,
+    forallb is_const_out oc = true -> forallb is_test_out ot = true ->
+    has_start_ok SMotion (om ++ oc ++ ot) = has_start_ok SMotion om.
+Proof.
+  intros om oc ot Hc Ht. rewrite !has_start_ok_app. unfold has_start_ok at 2 3.
+  rewrite (existsb_none _ _ is_const_out oc Hc), (existsb_none _ _ is_test_out ot Ht).
+  - rewrite !orb_false_r. reflexivity.
+  - intros x; destruct x as [[] [] []| | | | |]; cbn; congruence.
+  - intros x; destruct x as [[] [] []| | | | |]; cbn; congruence.
+Qed.
+
+Lemma has_stop_app3 : forall om oc ot,
+    forallb is_const_out oc = true -> forallb is_test_out ot = true ->
+    has_stop SMotion (om ++ oc ++ ot) = has_stop SMotion om.
+Proof.
+  intros om oc ot Hc Ht. rewrite !has_stop_app. unfold has_stop at 2 3.
+  rewrite (existsb_none _ _ is_const_out oc Hc), (existsb_none _ _ is_test_out ot Ht).
+  - rewrite !orb_false_r. reflexivity.
+  - intros x; destruct x as [[] [] []| | | | |]; cbn; congruence.
+  - intros x; destruct x as [[] [] []| | | | |]; cbn; congruence.
+Qed.
+
+Lemma cstep_wr : forall c cs id mo w, 0 <= id -> wr_ok id (snd (cstep c cs (EFrame id mo w))) = true.
+Proof.
+  intros c [fr fl] id mo w H. cbn [cstep]. unfold cprocess. cbn [c_frames c_faults].
+  repeat (brk1; cbn [c_frames c_faults fst snd negb andb app]);
+    unfold wr_ok; cbn [forallb andb snd]; lia.
+Qed.
+
+Lemma tstep_wr : forall ts id mo w, 0 <= id -> wr_ok id (snd (tstep ts (EFrame id mo w))) = true.
+Proof.
+  intros [tsr trc tfr tfl] id mo w H. cbn [tstep]. unfold tprocess. cbn [t_start t_rec t_frames t_faults].
+  repeat (brk1; cbn [t_start t_rec t_frames t_faults fst snd negb andb app]);
+    unfold wr_ok; cbn [forallb andb snd]; lia.
+Qed.
+
+Definition R13 (st : s13) (a : astate) : Prop :=
+  s13_ok st = true /\ s13_open st = a_rec a /\ 0 <= a_mark a <= a_n a.
+
+Lemma s13_step_inv : forall c st a cs ts e,
+    R13 st a -> match e with EFrame id _ _ => id = a_n a | _ => True end ->
+    R13 (s13_step c st (e, snd (astep c a e) ++ snd (cstep c cs e) ++ snd (tstep ts e)))
+        (fst (astep c a e)).
+Proof.
+  intros c st a cs ts e HR He. destruct st as [op hi ok]. destruct HR as (Hok & Hop & Hmk).
+  cbn [s13_ok s13_open] in *. subst ok op.
+  destruct e.
+  - subst id. unfold s13_step.
+    rewrite has_start_ok_app3, has_stop_app3 by (auto using cstep_outs_const, tstep_outs_test).
+    cbn [astep].
+    destruct (aprocess_s13 c a (a_n a) motion win ltac:(lia)) as (K1 & K2 & K3).
+    unfold R13. cbn [s13_ok s13_open]. rewrite <- K1.
+    split; [|split; [reflexivity|exact K3]].
+    rewrite !forallb_app.
+    rewrite !wr_ok_writes; [reflexivity| | |];
+      rewrite !wr_ok_app, K2, cstep_wr, tstep_wr by lia; reflexivity.
+  - destruct a as [n mark rec fw wu trig fl], cs as [cfr cfl]. cbn [astep cstep tstep].
+    cbn [a_n a_mark a_rec] in *.
+    unfold astop. cbn [a_n a_mark a_rec a_fw a_wu a_trig a_faults c_frames c_faults].
+    repeat (brk1; cbn [fst snd negb andb]); unfold R13; cbn; (split; [reflexivity|split; [reflexivity|lia]]).
+  - destruct a as [n mark rec fw wu trig fl]. cbn [astep cstep tstep].
+    cbn [a_n a_mark a_rec] in *.
+    unfold astop. cbn [a_n a_mark a_rec a_fw a_wu a_trig a_faults].
+    repeat (brk1; cbn [fst snd negb andb]); unfold R13; cbn; (split; [reflexivity|split; [reflexivity|lia]]).
+  - cbn [astep cstep tstep fst snd]. unfold R13. cbn. rewrite andb_true_r. auto.
+Qed.
+
+Lemma S13_gen : forall c evs a cs ts st,
+    wf_ids (a_n a) evs -> R13 st a ->
+    s13_ok (fold_left (s13_step c)
+              (combine evs (zip3 (arun c a evs) (crun c cs evs) (trun ts evs))) st) = true.
+Proof.
+  induction evs as [|e evs IH]; intros a cs ts st Hwf HR.
+  - cbn. apply HR.
+  - cbn [arun crun trun].
+    assert (He : match e with EFrame id _ _ => id = a_n a | _ => True end).
+    { destruct e; cbn in Hwf; tauto. }
+    pose proof (s13_step_inv c st a cs ts e HR He) as K.
+    pose proof (an_step c a e) as Kn.
+    destruct (astep c a e) as [a' om]. destruct (cstep c cs e) as [cs' oc]. destruct (tstep ts e) as [ts' ot].
+    cbn [fst snd zip3 combine fold_left] in *.
+    apply IH; [|exact K].
+    rewrite Kn. destruct e; cbn in Hwf; try tauto. destruct Hwf as [-> Hwf]. exact Hwf.
+Qed.
 
 Theorem S13_holds : forall c fm fc ft evs,
     1 <= p_size c -> wf_ids 0 evs ->
     S13 c (psteps c fm fc ft evs) = true.
-Admitted.
+Proof.
+  intros c fm fc ft evs Hs Hwf. unfold S13, psteps.
+  rewrite pinit_eq, prun_zip3, (mrun_arun c fm evs Hs Hwf).
+  apply S13_gen; [exact Hwf|]. unfold R13, ainit. cbn. repeat split; reflexivity || lia.
+Qed.
 
 (* after a bad frame that found no recording open, the motion machine is in the same state
    as before except for the (clobbered, about to be overwritten) current ring slot *)
@@ -41,18 +689,154 @@ Theorem bad_frame_resumes : forall c s,
     snd (mstep c s EBad) = [] /\
     m_rec s' = m_rec s /\ m_fw s' = m_fw s /\ m_wu s' = m_wu s /\ m_trig s' = m_trig s /\
     m_faults s' = m_faults s /\ m_ring s' = put (m_ring s) BAD_ID.
-Admitted.
+Proof.
+  intros c s H s'. subst s'. unfold mstep, stop_recording. cbn [m_rec]. rewrite H.
+  cbn. rewrite ?H. repeat split; reflexivity.
+Qed.
 
+
+(* ------------------------------------------------------------------ *)
 (* continuous recorder / test recording with fault-free sinks *)
+
+Ltac popnf :=
+  match goal with
+  | |- context [pop ?g] =>
+      match goal with
+      | Hf : forallb negb ?f = true |- _ =>
+          constr_eq f g;
+          let b := fresh "b" in let f' := fresh "f" in let E := fresh "E" in
+          let Hb := fresh "Hb" in let Hf' := fresh "Hf" in
+          destruct (pop g) as [b f'] eqn:E; destruct (pop_nf_eq _ _ _ Hf E) as [Hb Hf']; subst b; clear E
+      end
+  end.
+
+Definition R17c (c : pcfg) (st : s17c) (cs : cstate) : Prop :=
+  s17c_ok st = true /\ forallb negb (c_faults cs) = true /\
+  (p_const c = true -> 0 <= c_frames cs <= p_max c /\ s17c_open st = (0 <? c_frames cs) /\
+                       (s17c_open st = true -> s17c_cnt st = c_frames cs)).
+
+Lemma s17c_step_inv : forall c st cs e om ot,
+    0 <= p_max c -> R17c c st cs ->
+    forallb is_motion_out om = true -> forallb is_test_out ot = true ->
+    R17c c (s17c_step c st (e, om ++ snd (cstep c cs e) ++ ot)) (fst (cstep c cs e)).
+Proof.
+  intros c st cs e om ot Hp HR Hm Ht.
+  unfold s17c_step. rewrite const_outs_app3 by (auto using cstep_outs_const).
+  destruct st as [op cnt ok], cs as [fr fl]. unfold R17c in *.
+  cbn [s17c_ok s17c_open s17c_cnt c_frames c_faults] in *.
+  destruct HR as (Hok & Hf & HC). subst ok.
+  destruct (p_const c) eqn:Ep; cbn [negb].
+  2:{ destruct e; cbn [cstep]; unfold cprocess; rewrite ?Ep; cbn;
+      (split; [reflexivity|split; [assumption|discriminate]]). }
+  destruct (HC eq_refl) as (Hr & Hop & Hcnt). clear HC.
+  destruct e; cbn [cstep]; unfold cprocess; rewrite ?Ep; cbn [negb c_frames c_faults].
+  - rewrite Z.gtb_ltb.
+    assert (Hc : (if op then cnt else 0) = fr).
+    { destruct op; [apply Hcnt; reflexivity|lia]. }
+    rewrite Hc. clear Hcnt Hc.
+    destruct (fr =? 0) eqn:E1;
+      [assert (Ho : op = false) by lia|assert (Ho : op = true) by lia]; clear Hop; subst op;
+      repeat popnf; cbn [negb]; repeat popnf;
+      destruct (p_max c <? fr + 1) eqn:E2; repeat popnf;
+      cbn [fst snd c_frames c_faults s17c_ok s17c_open s17c_cnt app andb negb];
+      rewrite outs_eqb_refl;
+      (split; [reflexivity|split; [assumption|intros _; clear - Hr E1 E2; lia]]).
+  - repeat popnf. cbn [fst snd c_frames c_faults s17c_ok s17c_open s17c_cnt andb].
+    rewrite outs_eqb_refl. (split; [reflexivity|split; [assumption|intros _; lia]]).
+  - cbn [fst snd c_frames c_faults s17c_ok s17c_open s17c_cnt andb outs_eqb].
+    (split; [reflexivity|split; [assumption|intros _; lia]]).
+  - cbn [fst snd c_frames c_faults s17c_ok s17c_open s17c_cnt andb outs_eqb].
+    (split; [reflexivity|split; [assumption|intros _; lia]]).
+Qed.
+
+Lemma S17c_gen : forall c evs m cs t st,
+    0 <= p_max c -> R17c c st cs ->
+    s17c_ok (fold_left (s17c_step c)
+               (combine evs (zip3 (mrun c m evs) (crun c cs evs) (trun t evs))) st) = true.
+Proof.
+  induction evs as [|e evs IH]; intros m cs t st Hp HR.
+  - cbn. apply HR.
+  - cbn [mrun crun trun].
+    destruct (mstep c m e) as [m' om] eqn:Em.
+    pose proof (s17c_step_inv c st cs e om (snd (tstep t e)) Hp HR (mstep_k _ _ _ _ _ Em)
+                  (tstep_outs_test t e)) as K.
+    destruct (cstep c cs e) as [cs' oc] eqn:Ec.
+    destruct (tstep t e) as [t' ot] eqn:Et. cbn [zip3 combine fold_left fst snd] in *.
+    apply IH; assumption.
+Qed.
+
 Theorem S17c_holds : forall c fm fc ft evs,
     forallb negb fc = true -> 0 <= p_max c ->
     S17c c (psteps c fm fc ft evs) = true.
-Admitted.
+Proof.
+  intros c fm fc ft evs Hf Hp. unfold S17c, psteps. rewrite pinit_eq, prun_zip3.
+  apply S17c_gen; [assumption|].
+  unfold R17c, cinit. cbn. split; [reflexivity|split; [assumption|intros _; lia]].
+Qed.
+
+Definition R17t (st : s17t) (ts : tstate) : Prop :=
+  s17t_ok st = true /\ forallb negb (t_faults ts) = true /\
+  s17t_pend st = t_start ts /\ s17t_open st = t_rec ts /\
+  t_frames ts = (if t_rec ts then s17t_cnt st else 0).
+
+Lemma s17t_step_inv : forall st ts e om oc,
+    R17t st ts ->
+    forallb is_motion_out om = true -> forallb is_const_out oc = true ->
+    R17t (s17t_step st (e, om ++ oc ++ snd (tstep ts e))) (fst (tstep ts e)).
+Proof.
+  intros st ts e om oc HR Hm Hc.
+  unfold s17t_step. rewrite test_outs_app3 by (auto using tstep_outs_test).
+  destruct st as [pe op cnt ok], ts as [tsr trc tfr tfl]. unfold R17t in *.
+  cbn [s17t_ok s17t_pend s17t_open s17t_cnt t_start t_rec t_frames t_faults] in *.
+  destruct HR as (Hok & Hf & Hpe & Hop & Hfr). subst ok pe op.
+  destruct e; cbn [tstep].
+  - unfold tprocess. cbn [t_start t_rec t_frames t_faults].
+    destruct tsr, trc; cbn [andb orb negb t_start t_rec t_frames t_faults]; repeat popnf;
+      cbn [t_start t_rec t_frames t_faults negb]; repeat popnf;
+      try (destruct (_ >? SNAP_LAST) eqn:E2; repeat popnf;
+           match goal with
+           | |- context [TEST_FRAMES <=? ?x] =>
+               match type of E2 with
+               | _ = true =>
+                   assert (E3 : (TEST_FRAMES <=? x) = true)
+                     by (unfold SNAP_LAST, TEST_FRAMES in *; clear - E2 Hfr; lia)
+               | _ = false =>
+                   assert (E3 : (TEST_FRAMES <=? x) = false)
+                     by (unfold SNAP_LAST, TEST_FRAMES in *; clear - E2 Hfr; lia)
+               end; rewrite E3
+           end);
+      cbn [fst snd t_start t_rec t_frames t_faults s17t_ok s17t_pend s17t_open s17t_cnt app andb negb];
+      rewrite ?outs_eqb_refl; repeat split; try assumption; try reflexivity; try lia.
+  - cbn [fst snd t_start t_rec t_frames t_faults s17t_ok s17t_pend s17t_open s17t_cnt app andb negb outs_eqb].
+    repeat split; try assumption; try reflexivity.
+  - cbn [fst snd t_start t_rec t_frames t_faults s17t_ok s17t_pend s17t_open s17t_cnt app andb negb outs_eqb].
+    repeat split; try assumption; try reflexivity.
+  - cbn [fst snd t_start t_rec t_frames t_faults s17t_ok s17t_pend s17t_open s17t_cnt app andb negb outs_eqb].
+    repeat split; try assumption; try reflexivity.
+Qed.
+
+Lemma S17t_gen : forall c evs m cs t st,
+    R17t st t ->
+    s17t_ok (fold_left s17t_step
+               (combine evs (zip3 (mrun c m evs) (crun c cs evs) (trun t evs))) st) = true.
+Proof.
+  induction evs as [|e evs IH]; intros m cs t st HR.
+  - cbn. apply HR.
+  - cbn [mrun crun trun].
+    destruct (mstep c m e) as [m' om] eqn:Em.
+    destruct (cstep c cs e) as [cs' oc] eqn:Ec.
+    pose proof (s17t_step_inv st t e om oc HR (mstep_k _ _ _ _ _ Em) (cstep_k _ _ _ _ _ Ec)) as K.
+    destruct (tstep t e) as [t' ot] eqn:Et. cbn [zip3 combine fold_left fst snd] in *.
+    apply IH; assumption.
+Qed.
 
 Theorem S17t_holds : forall c fm fc ft evs,
     forallb negb ft = true ->
     S17t (psteps c fm fc ft evs) = true.
-Admitted.
+Proof.
+  intros c fm fc ft evs Hf. unfold S17t, psteps. rewrite pinit_eq, prun_zip3.
+  apply S17t_gen. unfold R17t, tinit. cbn. repeat split; try assumption; reflexivity.
+Qed.
 
 (* independence: the continuous sink's calls do not depend on motion bits, window bits,
    resets, test-recording requests or the other sinks' faults *)
@@ -61,16 +845,63 @@ Definition erase_bits (e : ev) : ev :=
 Definition keep_for_const (e : ev) : bool :=
   match e with EFrame _ _ _ | EBad => true | _ => false end.
 
+Lemma fm_const_zip3 : forall c evs m cs t,
+    flat_map const_outs (zip3 (mrun c m evs) (crun c cs evs) (trun t evs)) = concat (crun c cs evs).
+Proof.
+  induction evs as [|e evs IH]; intros; [reflexivity|].
+  cbn [mrun crun trun].
+  destruct (mstep c m e) as [m' om] eqn:Em. destruct (cstep c cs e) as [cs' oc] eqn:Ec.
+  destruct (tstep t e) as [t' ot] eqn:Et. cbn [zip3 flat_map concat]. rewrite IH. f_equal.
+  apply const_outs_app3; eauto using mstep_k, cstep_k, tstep_k.
+Qed.
+
+Lemma crun_filter : forall c evs cs,
+    concat (crun c cs evs) = concat (crun c cs (filter keep_for_const (map erase_bits evs))).
+Proof.
+  induction evs as [|e evs IH]; intros; [reflexivity|].
+  destruct e; cbn [map erase_bits filter keep_for_const crun cstep].
+  - destruct (cprocess c cs id) as [cs' oc]. cbn [concat]. f_equal. apply IH.
+  - destruct (if negb (p_const c) then _ else _) as [cs' oc]. cbn [concat]. f_equal. apply IH.
+  - cbn [concat app]. apply IH.
+  - cbn [concat app]. apply IH.
+Qed.
+
 Theorem const_independent : forall c fm fm' fc ft ft' evs,
     flat_map const_outs (prun c (pinit c fm fc ft) evs) =
     flat_map const_outs (prun c (pinit c fm' fc ft') (filter keep_for_const (map erase_bits evs))).
-Admitted.
+Proof.
+  intros. rewrite !pinit_eq, !prun_zip3, !fm_const_zip3. apply crun_filter.
+Qed.
 
 (* the motion sink's trace (and the listener callbacks) are identical with and without
    test-recording requests, and do not depend on the other sinks' faults *)
 Definition not_snapreq (e : ev) : bool := match e with ESnapReq => false | _ => true end.
 
+Lemma fm_motion_zip3 : forall c evs m cs t,
+    flat_map motion_outs (zip3 (mrun c m evs) (crun c cs evs) (trun t evs)) =
+    flat_map motion_outs (mrun c m evs).
+Proof.
+  induction evs as [|e evs IH]; intros; [reflexivity|].
+  cbn [mrun crun trun].
+  destruct (mstep c m e) as [m' om] eqn:Em. destruct (cstep c cs e) as [cs' oc] eqn:Ec.
+  destruct (tstep t e) as [t' ot] eqn:Et. cbn [zip3 flat_map]. rewrite IH. f_equal.
+  apply motion_outs_app3; eauto using cstep_k, tstep_k.
+Qed.
+
+Lemma mrun_filter : forall c evs m,
+    flat_map motion_outs (mrun c m evs) = flat_map motion_outs (mrun c m (filter not_snapreq evs)).
+Proof.
+  induction evs as [|e evs IH]; intros; [reflexivity|].
+  destruct e; cbn [filter not_snapreq mrun].
+  - destruct (mstep c m (EFrame id motion win)) as [m' om]. cbn [flat_map]. f_equal. apply IH.
+  - destruct (mstep c m EBad) as [m' om]. cbn [flat_map]. f_equal. apply IH.
+  - destruct (mstep c m EReset) as [m' om]. cbn [flat_map]. f_equal. apply IH.
+  - cbn [mstep flat_map motion_outs filter app]. apply IH.
+Qed.
+
 Theorem motion_undisturbed : forall c fm fc fc' ft ft' evs,
     flat_map motion_outs (prun c (pinit c fm fc ft) evs) =
     flat_map motion_outs (prun c (pinit c fm fc' ft') (filter not_snapreq evs)).
-Admitted.
+Proof.
+  intros. rewrite !pinit_eq, !prun_zip3, !fm_motion_zip3. apply mrun_filter.
+Qed.
